@@ -2,7 +2,9 @@
 C05 — stabilizer state comparison and fidelity are exact.
 
 Correspondence: `metric.fidelity/inner_product`, `canonical_form`, `Stabilizer.__eq__` on the real implementation vs the Lean model
-(`stab.ip`, `stab.canon`), compared exactly (exponent k / zero; canonical tableau).
+(`stab.ip`, `stab.canon`), compared exactly (exponent k / zero; canonical tableau); every canonical form the real code returns is
+also run through the verified shape checker `stab.iscanon` (Lean `isCanon`, sound for the shape `Canon` on which the normal-form
+theorem `canonical_form_is_normal_form` rests).
 Direct oracle (independent of graphiq and of the model): the exact overlap |<a|b>|^2 computed (i) for n <= 5 from dense density
 matrices tr(rho_a rho_b), (ii) for every n by GF(2) elimination: 0 if the groups contain P and -P, else 2^-(n - dim(A ∩ B));
 symmetry; fidelity = 1 iff same signed group; canonical form / equality depend only on the signed group and distinguish signs.
@@ -120,7 +122,9 @@ def check_pair(res, a, b, tag, pending, same=None):
         fails.append(("canonical_form:changes-state", "canonical_form changed the signed group"))
     lines = [f"stab.ip {tu.tab_args(a, 'a')} {tu.tab_args(b, 'b')}", f"stab.ip {tu.tab_args(b, 'a')} {tu.tab_args(a, 'b')}",
              f"stab.canon {su.stab_args(a.to_stabilizer())}", f"stab.inv {su.stab_args(a.to_stabilizer())}",
-             f"stab.inv {su.stab_args(b.to_stabilizer())}"]
+             f"stab.inv {su.stab_args(b.to_stabilizer())}",
+             # the verified shape checker (isCanon_sound) on the canonical form the REAL code returned
+             f"stab.iscanon {su.stab_args(ca if ca is not None else a.to_stabilizer())}"]
     pending.append((lines, inp, f_ab, f_ba, ca, spec, fails, same_state))
 
 
@@ -128,8 +132,8 @@ def flush(res, drv, pending):
     reps = drv.batch([ln for p in pending for ln in p[0]])
     k = 0
     for (ls, inp, f_ab, f_ba, ca, spec, fails, same_state) in pending:
-        r_ab, r_ba, r_c, r_ia, r_ib = reps[k : k + 5]
-        k += 5
+        r_ab, r_ba, r_c, r_ia, r_ib, r_shape = reps[k : k + 6]
+        k += 6
         res.nontrivial(inp["a"], inp["b"])
         res.branch([("zero" if spec[0] == "zero" else f"k={spec[1]}") + (":same" if same_state else "")])
         for rep, f, nm in ((r_ab, f_ab, "ab"), (r_ba, f_ba, "ba")):
@@ -142,6 +146,9 @@ def flush(res, drv, pending):
         if ca is not None:
             if r_c["_status"] != "ok" or su.reply_stab_tuple(r_c) != su.stab_tuple(ca):
                 res.exact_break("stab.canon", input=inp, impl=su.stab_args(ca), model=r_c["_raw"][:800])
+            if r_shape["_status"] != "ok" or r_shape.get("canon") != "1":
+                # the proved postcondition of the model (canonical_form_returns_canon) does not hold of the real result
+                res.exact_break("stab.iscanon", input=inp, impl=su.stab_args(ca), model=r_shape["_raw"][:200])
         if fails:
             d42 = any(r["_status"] == "ok" and r.get("zero") == "0" for r in (r_ia, r_ib))
             if d42:
